@@ -318,9 +318,8 @@ Proof.
   intros len t0 ops Hn b now.
   destruct (bar_after len t0 ops Hn) as ((Hwf & HJ & Ht & Hs) & He & Hh).
   fold b in Hwf, HJ, Ht, Hs, He. fold now in Ht.
-  change (T Rar) with R in *.
   assert (Hsps : 0 <= est_sps Rar (b_est b) now).
-  { rewrite He. apply (finite_nonneg _ t0 now Hh). rewrite <- He. exact Ht. }
+  { change (T Rar) with R in *. rewrite He. apply (finite_nonneg _ t0 now Hh). rewrite <- He. exact Ht. }
   assert (Heta : exists d, bar_eta Rar b now = Some d).
   { destruct (b_done b) eqn:Hd; [eexists; now apply eta_done|].
     destruct (b_len b) as [l|] eqn:Hl; [|eexists; now apply eta_no_len].
@@ -842,5 +841,5 @@ Proof.
   - unfold bar_per_sec.
     assert (Hd : b_done (fst (run_state Rar rewind_wit_ops 0 (bar_new Rar (Some 100%N) 0))) = false)
       by reflexivity.
-    rewrite Hd. change (T Rar) with R in *. rewrite He. apply est_sps_R_restart. cbn [start_time]. lia.
+    change (T Rar) with R in *. rewrite Hd, He. apply est_sps_R_restart. cbn [start_time]. lia.
 Qed.
